@@ -386,7 +386,7 @@ func init() {
 	jobs := func(tier string) []runner.Job {
 		return []runner.Job{
 			job(scAny(&resCfg{id: "c20-res-ids0"}), 0, 2),
-			job(scAny(&resCfg{id: "c20-res-high-ids", fillers: highResFillers()}), pick(tier, 6, 0), 1),
+			job(scAny(&resCfg{id: "c20-res-high-ids", fillers: highResFillers()}), 0, 1),
 		}
 	}
 	jobs("quick")
